@@ -111,6 +111,7 @@ theorem fibreNullerBackward_parity (apod : Option (List K)) (Pb B : List (List K
   simp [fibreNullerBackward, fibreBackward, parity, optMul_parity]
 theorem fibreModes_parity (Mc Mh : List (List K)) (ph w : List K) :
     parity (fibreModes Mc ph Mh w) = some false := rfl
+theorem scaledTransform_parity (c : K) (F : List (List K)) : parity (scaledTransform c F) = some false := rfl
 theorem lyotCore_parity (Pb : List (List K)) (m1 : List K) (Pf : List (List K)) :
     parity (lyotCore Pb m1 Pf) = some false := rfl
 
@@ -244,6 +245,7 @@ example : ∀ f : Family, ∃ args : List (Arg ℤ), (familyTerm f args).isSome 
   · exact ⟨[.mat [], .mat [], .none], rfl⟩
   · exact ⟨[.none, .mat [], .mat []], rfl⟩
   · exact ⟨[.mat [], .vec [], .mat [], .vec []], rfl⟩
+  · exact ⟨[.vec [0], .mat []], rfl⟩
 
 end FamilyLinear
 
@@ -581,5 +583,29 @@ theorem staleScratch_history_dependent :
     let params : Nat → Int := fun _ => 0
     (callI demoISem iStaleScratch (runHistory demoISem iStaleScratch (EState.fresh params) [.call v]) v).1
       ≠ (callI demoISem iStaleScratch (EState.fresh params) v).1 := by decide
+
+/-- **Classic failure 3 (seeded C06-8): a work buffer allocated once instead of per precision.**  The
+matrix Fourier transform keeps its matrices *and* its preallocated intermediate array per working
+precision (`iMft`: accepted, hence history independent by `history_independent` — any sequence of
+calls in any precisions); with the intermediate array allocated only when there is none
+(`iMftAllocOnceOld`) the cell is keyed by nothing while its content depends on the precision: rejected … -/
+theorem mftAllocOnceOld_unsafe : safeInternal iMftAllocOnceOld = false := by decide
+
+theorem mft_safe : safeInternal iMft = true := by decide
+
+/-- … and after a call in precision 1 a call in precision 2 on the same object returns something else
+than a fresh object does (the first product lands in a buffer of the wrong kind). -/
+theorem mftAllocOnceOld_history_dependent :
+    let v : InVal := ⟨5, 1, 0, 0⟩
+    let p1 : Nat → Int := fun _ => 1
+    (callI demoISem iMftAllocOnceOld
+        (runHistory demoISem iMftAllocOnceOld (EState.fresh p1) [.call v, .setParam 0 2]) v).1
+      ≠ (callI demoISem iMftAllocOnceOld (EState.fresh (fun _ => 2)) v).1 := by decide
+
+/-- the correct program on the same history: equal (instance of `history_independent`). -/
+example :
+    let v : InVal := ⟨5, 1, 0, 0⟩
+    (callI demoISem iMft (runHistory demoISem iMft (EState.fresh fun _ => 1) [.call v, .setParam 0 2]) v).1
+      = (callI demoISem iMft (EState.fresh (fun _ => 2)) v).1 := by decide
 
 end HcipyVerif.C06
